@@ -65,9 +65,9 @@ class Some:
 
 def freeze(t):
     if isinstance(t, list):
-        return ("#list",) + tuple(freeze(x) for x in t)
+        return ("#list",) + tuple([freeze(x) for x in t])
     if isinstance(t, tuple):
-        return tuple(freeze(x) for x in t)
+        return tuple([freeze(x) for x in t])
     return t
 
 
@@ -101,11 +101,11 @@ def _coq(t) -> str:
     if isinstance(t, Some):
         return f"(Some {_coq(t.x)})"
     if isinstance(t, list):
-        return "[" + "; ".join(_coq(x) for x in t) + "]"
+        return "[" + "; ".join([_coq(x) for x in t]) + "]"
     if isinstance(t, tuple):
         if len(t) == 1:
             return t[0]
-        return "(" + t[0] + " " + " ".join(_coq(x) for x in t[1:]) + ")"
+        return "(" + t[0] + " " + " ".join([_coq(x) for x in t[1:]]) + ")"
     raise TypeError(f"not a term: {t!r}")
 
 
@@ -137,12 +137,12 @@ def from_json(j):
         return P(from_json(j["pair"][0]), from_json(j["pair"][1]))
     if "some" in j:
         return Some(from_json(j["some"]))
-    return (j["c"],) + tuple(from_json(x) for x in j["a"])
+    return (j["c"],) + tuple([from_json(x) for x in j["a"]])
 
 
 def size(t) -> int:
     if isinstance(t, (list, tuple)):
-        return 1 + sum(size(x) for x in t)
+        return 1 + sum([size(x) for x in t])
     if isinstance(t, P):
         return 1 + size(t.a) + size(t.b)
     if isinstance(t, Some):
